@@ -1,0 +1,27 @@
+//! Verification hooks. Only compiled with `--cfg kira_verif`; never part of a normal build.
+//!
+//! `log_powf32` records the libm calls made by [`Decibels::as_amplitude`](crate::Decibels::as_amplitude)
+//! on the current thread, so that an external model can be given exactly the libm
+//! facts (`argument -> result`) the code relied on.
+
+use std::cell::RefCell;
+
+thread_local! {
+	static POWF32_LOG: RefCell<Vec<(u32, u32, u32)>> = const { RefCell::new(Vec::new()) };
+}
+
+/// Records one `base.powf(arg) == result` fact (as bit patterns) on this thread.
+pub fn log_powf32(base: f32, arg: f32, result: f32) {
+	POWF32_LOG.with(|log| {
+		let mut log = log.borrow_mut();
+		// bounded: the harness drains it regularly
+		if log.len() < 1 << 20 {
+			log.push((base.to_bits(), arg.to_bits(), result.to_bits()));
+		}
+	});
+}
+
+/// Takes (and clears) the facts recorded on this thread.
+pub fn take_powf32_log() -> Vec<(u32, u32, u32)> {
+	POWF32_LOG.with(|log| std::mem::take(&mut *log.borrow_mut()))
+}
